@@ -397,6 +397,13 @@ pub fn token(rng: &mut Rng, ctx: &Ctx, kind: usize) -> String {
             _ => "\x1bD".to_string(),
         },
         K_SGR => {
+            if rng.chance(6) {
+                // at and beyond the capacity of 32 parameters: every slot up to the last one must still count
+                let n = *rng.pick(&[30usize, 31, 32, 32, 33, 34, 40]);
+                let codes = ["1", "3", "4", "5", "7", "9", "31", "42", "0", "22", "2"];
+                let body: Vec<&str> = (0..n).map(|i| if i + 4 >= n.min(33) { *rng.pick(&codes) } else { *rng.pick(&["0", "", "39", "49"]) }).collect();
+                return format!("{}{}m", csi(rng), body.join(";"));
+            }
             if rng.chance(10) {
                 // near misses: NOT select-graphic-rendition - a private marker or an intermediate before the final m
                 // (xterm's modifyOtherKeys CSI > 4 ; 2 m and friends) must leave the pen alone
@@ -522,7 +529,7 @@ pub fn token(rng: &mut Rng, ctx: &Ctx, kind: usize) -> String {
             }
             8 => {
                 // params with huge values / leading zeros / colon forms on non-SGR
-                let v = *rng.pick(&["00001", "99999", "1:2", "1:2:3:4:5:6:7:8", "::", ";;", "123456789012"]);
+                let v = *rng.pick(&["00001", "99999", "1:2", "1:2:3:4:5:6:7:8", "::", ";;", "123456789012", "0:7", "0:1:2", "0:"]);
                 let f = *rng.pick(&['A', 'H', 'X', 'm', 'r', 'b']);
                 // a huge REP with auto-wrap on scrolls tens of thousands of rows: quadratic in the list model
                 let pre = if f == 'b' && (v == "99999" || v == "123456789012") { "\x1b[?7l" } else { "" };
@@ -695,7 +702,17 @@ pub fn excursion(rng: &mut Rng, ctx: &mut Ctx, p: &Profile) -> Vec<Op> {
             ops.push(Op::Str(token(rng, ctx, k)));
         }
     }
-    ops.push(Op::Str(format!("\x1b[?{}l", rng.pick(&modes))));
+    // leave: mostly a single mode, sometimes inside a LIST with flag modes or DECOM before / after it (every mode of a list is
+    // executed in order, each with its own reflow / restore)
+    let m = *rng.pick(&modes);
+    let leave = match rng.below(10) {
+        0 => format!("\x1b[?{};6l", m),
+        1 => format!("\x1b[?6;{}l", m),
+        2 => format!("\x1b[?{};7l", m),
+        3 => format!("\x1b[?25;{}l", m),
+        _ => format!("\x1b[?{}l", m),
+    };
+    ops.push(Op::Str(leave));
     if rng.chance(40) {
         // probe the region afterwards
         ops.push(Op::Str(rng.pick(&["\x1b[999;1H\n\n", "\x1b[2S", "\x1b[1;1H\x1bM", "\x1b[?6h\x1b[1;1HQ\x1b[?6l"]).to_string()));
